@@ -41,7 +41,7 @@ def strata(pid, t, rnd):
 
     w = {"C01": dict(uniform=1, threshold=1, grey=1, named=1, nearbg=.5, hair=.5, spell=1, isolum=.3, hairline=1, corner=.5, zeroone=1, edge=.5, ultrahair=1, neargrey=.5, informal=.5, razor=1, extreme=.5, hslbg=2.5, equilum=.4, css4=1),
          "C02": dict(uniform=.7, threshold=1, grey=.7, named=.5, nearbg=.7, hair=1.5, spell=1.2, isolum=4, hairline=1, corner=3, zeroone=1, ultrahair=.5, neargrey=1.5, informal=1.5, razor=1.4, extreme=.5, hslbg=1, equilum=.5),
-         "C16": dict(uniform=.5, threshold=1.2, grey=.5, named=.3, nearbg=2.0, hair=.3, spell=.2, isolum=.5, edge=2, corner=.3, history=1, equilum=1),
+         "C16": dict(uniform=.5, threshold=1.2, grey=.5, named=.3, nearbg=2.0, hair=.3, spell=.2, isolum=.5, edge=3.5, corner=.3, history=1, equilum=1),
          "C04": dict(uniform=1, threshold=1, grey=.5, named=.3, nearbg=1.5, hair=.2, spell=.3, isolum=.5),
          "C03": dict(witness=1, witness_neargrey=.6, witness_translucent=.2, witness_hsl=.25, extreme=3, witness_edge=.6, witness_special=.5, witness_plateau=.2, witness_crossover=.4, witness_satbg=.4)}[pid]
     for name, scale in w.items():
